@@ -4,13 +4,46 @@ seeded/<id>/detect.json plus the table of DESIGN.md §7.4 (between the SEED-TABL
 import json, os, re, subprocess, sys
 here = os.path.dirname(os.path.dirname(os.path.abspath(__file__)))
 seeds = sorted(d for d in os.listdir(os.path.join(here, "seeded")) if os.path.exists(os.path.join(here, "seeded", d, "patch.diff")))
-only = sys.argv[1:]
+seeds = [d for d in seeds if os.path.exists(os.path.join(here, "seeded", d, "meta.json"))]
+# --lanes N: run against N scratch worktrees of /repo HEAD in parallel (instead of patching /repo itself)
+lanes = 0
+args = sys.argv[1:]
+if args and args[0] == "--lanes":
+    lanes = int(args[1]); args = args[2:]
+only = args
+import concurrent.futures, queue, shutil
+wts = queue.Queue()
+if lanes:
+    shutil.copy(os.path.join(here, "bin/checker"), "/tmp/chk-table")
+    for k in range(lanes):
+        wt = "/tmp/st-%d" % k
+        subprocess.run(["git", "-C", "/repo", "worktree", "remove", "--force", wt], capture_output=True)
+        subprocess.run(["git", "-C", "/repo", "worktree", "add", "-q", "--detach", wt, "HEAD"], check=True)
+        wts.put(wt)
+def run_seed(sid):
+    env = dict(os.environ)
+    wt = None
+    if lanes:
+        wt = wts.get(); env.update(REPO=wt, CHECKER="/tmp/chk-table", JOBS="4")
+    try:
+        return subprocess.run([os.path.join(here, "scripts/try_seed.sh"), os.path.join(here, "seeded", sid, "patch.diff")], capture_output=True, text=True, env=env).stdout
+    finally:
+        if wt: wts.put(wt)
+todo = [sid for sid in seeds if not (only and sid not in only and os.path.exists(os.path.join(here, "seeded", sid, "detect.json")))]
+outs = {}
+with concurrent.futures.ThreadPoolExecutor(max_workers=max(lanes, 1)) as ex:
+    for sid, out in zip(todo, ex.map(run_seed, todo)):
+        outs[sid] = out
+if lanes:
+    for k in range(lanes):
+        subprocess.run(["git", "-C", "/repo", "worktree", "remove", "--force", "/tmp/st-%d" % k], capture_output=True)
+    subprocess.run(["git", "-C", "/repo", "worktree", "prune"])
 rows = []
 for sid in seeds:
     det = os.path.join(here, "seeded", sid, "detect.json")
-    if only and sid not in only and os.path.exists(det):
+    if sid not in outs:
         rows.append(json.load(open(det))); continue
-    out = subprocess.run([os.path.join(here, "scripts/try_seed.sh"), os.path.join(here, "seeded", sid, "patch.diff")], capture_output=True, text=True).stdout
+    out = outs[sid]
     alarms, cur = {}, None
     for line in out.splitlines():
         m = re.match(r"== (C\d\d) ALARM", line)
@@ -23,8 +56,12 @@ for sid in seeds:
     json.dump(rec, open(det, "w"), indent=1)
     rows.append(rec)
     print(sid, "own" if rec["own_check_alarms"] else "MISSED", sorted(alarms), flush=True)
-lines = ["| seed | property | needs, to manifest | own check | first obligation reported | other checks alarming |", "|---|---|---|---|---|---|"]
-for r in rows:
+def table_of(rows):
+  lines = ["| seed | property | needs, to manifest | own check | first obligation reported | other checks alarming |", "|---|---|---|---|---|---|"]
+  for r in rows:
+    lines.append(row_of(r))
+  return "\n".join(lines)
+def row_of(r):
     meta = json.load(open(os.path.join(here, "seeded", r["seed"], "meta.json")))
     own = r["alarms"].get(r["property"], [])
     first = own[0].split(" ", 1)[1] if own else "—"
@@ -32,13 +69,11 @@ for r in rows:
     others = ", ".join(sorted(k for k in r["alarms"] if k != r["property"])) or "—"
     needs = meta["needs_to_manifest"]
     if len(needs) > 110: needs = needs[:107] + "…"
-    lines.append(f"| {r['seed']} | {r['property']} | {needs} | {'alarm' if r['own_check_alarms'] else ('n/a' if not r['applies'] else 'silent')} | `{first}` | {others} |")
-table = "\n".join(lines)
+    return f"| {r['seed']} | {r['property']} | {needs} | {'alarm' if r['own_check_alarms'] else ('n/a' if not r['applies'] else 'silent')} | `{first}` | {others} |"
 p = os.path.join(here, "DESIGN.md")
 s = open(p).read()
-if "SEEDED_TABLE_PLACEHOLDER" in s:
-    s = s.replace("SEEDED_TABLE_PLACEHOLDER", "<!-- SEED-TABLE-BEGIN -->\n" + table + "\n<!-- SEED-TABLE-END -->")
-else:
-    s = re.sub(r"<!-- SEED-TABLE-BEGIN -->.*?<!-- SEED-TABLE-END -->", "<!-- SEED-TABLE-BEGIN -->\n" + table + "\n<!-- SEED-TABLE-END -->", s, flags=re.S)
+for tag, sel in (("SEED-TABLE", [r for r in rows if not r["seed"].startswith("micro-")]), ("MICRO-TABLE", [r for r in rows if r["seed"].startswith("micro-")])):
+    if f"<!-- {tag}-BEGIN -->" in s:
+        s = re.sub(rf"<!-- {tag}-BEGIN -->.*?<!-- {tag}-END -->", lambda m: f"<!-- {tag}-BEGIN -->\n" + table_of(sel) + f"\n<!-- {tag}-END -->", s, flags=re.S)
 open(p, "w").write(s)
-print("table written:", len(rows), "seeds")
+print("table written:", len(rows), "seeds;", sum(1 for r in rows if r["own_check_alarms"]), "alarm their own check")
